@@ -189,6 +189,8 @@ NsVerdict(r) ==
 Verdict(r) ==
   IF r.res # "ok" /\ ~(r.strict /\ r.res = "err:ambiguity")
      THEN (IF On(r, "C14") THEN "C14" ELSE IF On(r, "C16") THEN "C16" ELSE "C03") \o ": a run that has no reason to fail failed: " \o r.res
+  ELSE IF On(r, "C14") /\ \E i \in 1..Len(r.toks) : "s2" \in DOMAIN r.toks[i] /\ r.toks[i].s2 >= 0 /\ (r.toks[i].s2 # r.toks[i].s \/ r.toks[i].e2 # r.toks[i].e)
+       THEN "C14: the range reported for a token changed after the handler edited the token"
   ELSE IF On(r, "C14") /\ r.res = "ok" /\ ~Monotone(r.toks) THEN "C14: ranges overlap or go backwards"
   ELSE IF On(r, "C14") /\ r.res = "ok" /\ ~TextOk(r.toks, 1, -1) THEN "C14: text chunk ranges are not contiguous within their node"
   ELSE IF On(r, "C14") /\ \E i \in 1..Len(r.toks) : r.toks[i].k \in {"st", "et", "cm", "dt"} /\ ~TagRangeOk(r, r.toks[i])
